@@ -780,3 +780,65 @@ N('check-consistency-as-iterator-min', ALL, SL,
             .filter(|&f| f != NULL_FRAME)
             .min()
             .unwrap_or(NULL_FRAME)""", 'NULL-aware minimum including the pending disconnect frame, written with iterators')
+
+# ---------------------------------------------------------------- helper bodies (rules/helpers.py)
+M('H-last-recv-frame-min', 'C05', 'C05.H', PROTO,
+  "match self.recv_inputs.iter().max_by_key(|&(k, _)| k) {", "match self.recv_inputs.iter().min_by_key(|&(k, _)| k) {",
+  'last_recv_frame returns the smallest stored frame')
+M('H-last-recv-frame-first', 'C01', 'C01.H', PROTO,
+  "match self.recv_inputs.iter().max_by_key(|&(k, _)| k) {", "match self.recv_inputs.iter().next() {",
+  'last_recv_frame returns the first stored frame')
+M('H-prev-pos-off-by-one', 'C03', 'C03.H', IQ,
+  """        if head == 0 {
+            INPUT_QUEUE_LENGTH - 1
+        } else {
+            head - 1
+        }""", """        if head <= 1 {
+            INPUT_QUEUE_LENGTH - 1
+        } else {
+            head - 1
+        }""", 'ring predecessor wrong at head == 1')
+M('H-cells-max-pred', 'C02', 'C02.H', SL,
+  "let num_cells = max_pred + 1;", "let num_cells = max_pred.max(1);", 'one cell short')
+M('H-get-cell-shifted', 'C13', 'C13.H', SL,
+  "let pos = frame as usize % self.states.len();", "let pos = (frame as usize + 1) % self.states.len();", 'cell index shifted')
+M('H-saved-state-untagged', 'C09', 'C09.H', SL,
+  """        if cell.0.lock().frame == frame {
+            Some(cell)
+        } else {
+            None
+        }
+    }
+
+    /// Returns the latest saved state whose""", """        if cell.0.lock().frame >= frame {
+            Some(cell)
+        } else {
+            None
+        }
+    }
+
+    /// Returns the latest saved state whose""", 'a newer frame in the slot is handed out as the requested frame')
+M('H-input-matches-frame', 'C03', 'C03.H', 'src/frame_info.rs',
+  """    pub(crate) fn input_matches(&self, other: &Self) -> bool {
+        self.input == other.input""", """    pub(crate) fn input_matches(&self, other: &Self) -> bool {
+        self.frame == other.frame || self.input == other.input""", 'prediction check passes on equal frames')
+M('H-is-synchronized-too-early', 'C12', 'C12.H', PROTO,
+  """        self.state == ProtocolState::Running
+            || self.state == ProtocolState::Disconnected""", """        self.state == ProtocolState::Running
+            || self.state == ProtocolState::Synchronizing
+            || self.state == ProtocolState::Disconnected""", 'synchronizing endpoints count as synchronized')
+M('H-num-spectators-counts-remotes', 'C06', 'C06.H', P2P,
+  ".filter(|(_, v)| matches!(v, PlayerType::Spectator(_)))\n            .count()", ".filter(|(_, v)| !matches!(v, PlayerType::Local))\n            .count()",
+  'num_spectators counts remotes too')
+M('H-delay-not-applied', 'C11', 'C11.H', IQ,
+  "        input_frame += self.frame_delay as i32;\n", "        input_frame += (self.frame_delay as i32).min(1);\n", 'delay clipped to 1')
+M('H-next-complete-any', 'C18', 'C18.H', P2P,
+  """        if local_handles
+            .iter()
+            .all(|handle| inputs.contains_key(handle))
+        {
+            Some(next_frame)""", """        if local_handles
+            .iter()
+            .any(|handle| inputs.contains_key(handle))
+        {
+            Some(next_frame)""", 'a frame counts as complete once any local handle has an entry')
